@@ -55,6 +55,9 @@ def configs(tier, seed):
         _cfg((5, 4, 1), (1, 1, 1), 2, "average", "uint16"), _cfg((1, 5, 5), (1, 1, 1), 2, "majority", "uint16"),
         _cfg((5, 5, 3), (1, 4, 1), 2, "average", "uint8"), _cfg((4, 5, 5), (1, 2, 2), 4, "average", "uint8", outside=0),
         _cfg((3, 2, 3), (2, 4, 1), 1, "stride", "uint64", enc="compressed_segmentation", layout="flat"), _cfg((5, 3, 5), (2, 4, 1), 2, "stride", "uint32", layout="flat"),
+        # multi-channel segmentations stored with compressed_segmentation (channels may share label sets)
+        _cfg((5, 1, 1), (1, 1, 1), 2, "stride", "uint32", 2, enc="compressed_segmentation", cost=8),
+        _cfg((1, 5, 1), (1, 1, 1), 2, "majority", "uint64", 2, enc="compressed_segmentation", cost=8),
     ]
     for _ in range(60 if tier == "quick" else 400):
         size = tuple(rnd.randint(3, 9) if rnd.random() < 0.8 else rnd.randint(1, 2) for _ in range(3))
